@@ -34,7 +34,7 @@ ASSUMPTIONS = [
     "for WOFF2 sources the tag->bytes model of transformed tables comes from fontTools' own reconstruction",
     "the dependency closure of a touch set is an over-approximation measured on the pinned tree and widened by code reading",
 ]
-EXPECTED_PROBES = ["foreign.post", "foreign.cmap", "foreign.GPOS", "foreign.glyf", "foreign.VDMX", "foreign.hdmx", "foreign.LTSH", "passthrough.no_decoder_checked", "passthrough.tables_checked", "content.tables_checked", "fixedpoint.checked", "source.short", "source.unseekable", "lazy.True"]
+EXPECTED_PROBES = ["foreign.fvar", "foreign.post", "foreign.cmap", "foreign.GPOS", "foreign.glyf", "foreign.VDMX", "foreign.hdmx", "foreign.LTSH", "passthrough.no_decoder_checked", "passthrough.tables_checked", "content.tables_checked", "fixedpoint.checked", "source.short", "source.unseekable", "lazy.True"]
 
 TIERS = {
     "quick": {"budget_s": 600, "determinism_sample": 12, "n": {"sweep": 9000}, "minimise_s": 40, "max_minimise": 3},
